@@ -178,7 +178,7 @@ def snap_node(n):
     if c == "SpAssignOperation": return [c, nm, pos, S(n.left), S(n.right), n.mode]
     if c == "StringOperation": return [c, nm, pos, S(n.start), S(n.end), S(n.of)]
     if c == "UnaryStringOperation": return [c, nm, pos, n.type.value if n.type is not None else None, S(n.of)]
-    if c == "PropertyAccessorOperation": return [c, nm, pos, S(n.obj), n.prop]
+    if c == "PropertyAccessorOperation": return [c, nm, pos, S(n.obj), n.prop, bool(n.explicit_obj)]
     if c == "KeyPropertyAccessorOperation": return [c, nm, pos, n.prop]
     if c == "MenuitemAccessorOperation": return [c, nm, pos, S(n.menu), S(n.item)]
     if c == "MenuitemsAccessorOperation": return [c, nm, pos, S(n.menu)]
